@@ -1,6 +1,8 @@
 # Per-property job lists (harnesses, shards, bounds) for the quick and thorough tiers.
 from engine import MOD
 
+SEED = [0]
+
 VM = MOD + '/vm'
 
 
@@ -89,7 +91,87 @@ def c10(tier):
     return jobs, meta
 
 
+def c01(tier):
+    import templates
+    if tier == 'quick':
+        base = templates.gen(1)
+        more = [s for s in templates.gen(2, quick=True) if s not in base]
+        srcs = base + more[SEED[0] % 3::3]   # a third of the two-operator templates per run, rotated by VERIF_SEED
+    else:
+        srcs = templates.gen(3)
+    jobs = []
+    for n, src in enumerate(srcs):
+        opt = 1 if tier == 'quick' else n % 2
+        jobs.append((H('.', 'HarnessC01Template'), P('.'), None, {'params': {'src': src, 'optimize': 1, 'maxlen': 2 if tier == 'quick' else 3}, 'label': src, 'job_timeout': 120 if tier == 'quick' else 900}))
+        if tier != 'quick':
+            jobs.append((H('.', 'HarnessC01Template'), P('.'), None, {'params': {'src': src, 'optimize': 0, 'maxlen': 2}, 'label': src}))
+    meta = {
+        'explanation': 'program layer (M2): each template source of a typed grammar over the harness environment (%d templates: every production with atom operands, every production with every production in each operand slot%s) is parsed, checked, optimized and compiled by the REAL pipeline inside the symbolic interpreter, then the real VM runs it on an environment whose member VALUES are symbolic (ints, bools, floats, choice strings, []int of symbolic length with symbolic elements, map with symbolic presence of keys, nil-able pointer chain, uninterpreted environment functions with a call log); z3 decides for all environment values that failure, result and call log equal those of a reference evaluator written from the language definition' % (len(srcs), '' if tier == 'quick' else ', nested closure/conditional family'),
+        'bounds': {'templates': len(srcs), 'node budget': '2 operators (quick: representative inner productions; thorough: all) + nested family', 'arrays': 'length <= %d' % (2 if tier == 'quick' else 3), 'strings': 'choice of 4', 'map': 'keys subset of {a,b}', 'pointer chain': 'depth <= 2'},
+        'outside': ['expressions above the node budget (covered compositionally by the scheme/step checks of C05 only)', 'strings beyond the 4 choices', 'float members other than F', 'methods on members', 'matches with non-literal patterns'],
+        'assumptions': COMMON_ASSUME + ['the reference evaluator (harness/zz_verif_ref.go) states the language definition; where the definition is silent it follows Go semantics of the operand types'],
+        'must_reach': ['c01.ran', 'c01.both-succeed'],
+    }
+    return jobs, meta
+
+
+def c02(tier):
+    import templates
+    jobs = []
+    for src in templates.C02_TEMPLATES:
+        for symlit in (0, 1):
+            jobs.append((H('.', 'HarnessC02Template'), P('.'), None, {'params': {'src': src, 'symlit': symlit, 'maxlen': 2}, 'label': '%s [symlit=%d]' % (src, symlit), 'job_timeout': 150 if tier == 'quick' else 900}))
+    if tier != 'quick':
+        # the C01 templates in which a literal occurs, compiled twice
+        for src in templates.gen(2):
+            if any(ch.isdigit() for ch in src.replace('I64', '').replace('U8', '')) or '[' in src or '..' in src:
+                jobs.append((H('.', 'HarnessC02Template'), P('.'), None, {'params': {'src': src, 'symlit': 1, 'maxlen': 2}, 'label': src + ' [symlit=1]', 'job_timeout': 600}))
+    meta = {
+        'explanation': 'each source in which a rewrite can fire (constant arithmetic at depth and in re-typed argument positions, literal arrays, membership in literal arrays and literal ranges with left operands of every static type, constant ranges) is compiled by the real pipeline with Optimize(true) and Optimize(false); integer literals are made SYMBOLIC by a Patch visitor (same values in both compilations) so fold/inArray/inRange/constRange compute on symbolic literal values; both programs run on the real VM with a symbolic environment; z3 decides both-fail-or-equal-results for all literal and environment values, and that the optimizer rejects only constant division/modulo by zero',
+        'bounds': {'templates': len(jobs), 'literal values': 'all int64 (in -2..4 where the template contains a range or **)', 'arrays': 'length <= 2', 'environment': 'as C01'},
+        'outside': ['ConstExpr functions (separate harness not built)', 'the 1000/100-iteration fix-point limits of Optimize', 'string literal contents (concrete)'],
+        'assumptions': COMMON_ASSUME,
+        'must_reach': ['c02.ran', 'c02.both-succeed', 'c02.rejected-by-optimizer'],
+    }
+    return jobs, meta
+
+
+def c15(tier):
+    import templates
+    srcs = templates.gen(1) if tier == 'quick' else templates.gen(2, quick=True)
+    jobs = [(H('.', 'HarnessC15Template'), P('.'), None, {'params': {'src': src, 'maxlen': 2}, 'label': src, 'job_timeout': 150 if tier == 'quick' else 900}) for src in srcs]
+    meta = {
+        'explanation': 'each template is compiled by the real pipeline in seven modes (Env(*struct), Env(struct), Env(map[string]interface{}), no Env run on struct and on map, AllowUndefinedVariables, Optimize(false)) and evaluated with Eval; every variant that compiles and runs successfully is run on the same symbolic environment (struct, pointer or map form of the same members) and z3 decides that all successful results are equal for all environment values',
+        'bounds': {'templates': len(srcs), 'arrays': 'length <= 2', 'environment': 'as C01'},
+        'outside': ['named scalar types as members', 'templates above the node budget'],
+        'assumptions': COMMON_ASSUME,
+        'must_reach': ['c15.ran', 'c15.compared'],
+    }
+    return jobs, meta
+
+
+def c18(tier):
+    import templates
+    ids = templates.c18(tier == 'quick', SEED[0])
+    jobs = []
+    for l, r, m in ids:
+        for opt in ((1,) if tier == 'quick' else (1, 0)):
+            jobs.append((H('.', 'HarnessC18Identity'), P('.'), None, {'params': {'lhs': l, 'rhs': r, 'mode': m, 'optimize': opt, 'maxlen': 2 if tier == 'quick' else 3}, 'label': '%s ~ %s [mode %d opt %d]' % (l, r, m, opt), 'job_timeout': 150 if tier == 'quick' else 900}))
+    meta = {
+        'explanation': 'both sides of each defining identity (all/none/any/one/count/filter/map, membership in an integer range, slicing partition) are compiled by the real pipeline as two programs and as one expression and run on the real VM with arrays of symbolic length and content (env slices, run-time ranges, literals, results of other builtins) and UNINTERPRETED predicates/mappers (one query covers every predicate); nested closures are compared with the reference evaluator including the call log (the closure sees the element of its own innermost collection)',
+        'bounds': {'identities x collections x predicates': len(ids), 'arrays': 'length <= %d' % (2 if tier == 'quick' else 3), 'nesting depth': 3, 'range bounds': '-2..4'},
+        'outside': ['arrays longer than the bound', 'predicates with side effects'],
+        'assumptions': COMMON_ASSUME,
+        'must_reach': ['c18.ran'],
+    }
+    return jobs, meta
+
+
 PROPS = {
+    'C02': c02,
+    'C15': c15,
+    'C18': c18,
+    'C01': c01,
     'C10': c10,
     'C06': c06,
     'C07': c07,
